@@ -83,6 +83,19 @@ pub fn run_ska_env(ctx: &Ctx, cwd: &Path, args: &[&str], env: &[(&str, &str)]) -
         ("lo", "-m", "--missing"), ("lo", "-r", "--reference"), ("lo", "-d", "--depth"), ("lo", "-n", "--indel-kmers"),
     ];
     let sub = args.first().copied().unwrap_or("");
+    // a file list edited on Windows: every sixth `ska build -f <list>` reads its list with CRLF line ends
+    if sub == "build" && (ctx.counter.get() as usize + salt) % 6 == 4 {
+        if let Some(i) = args.iter().position(|a| *a == "-f") {
+            if let Some(l) = args.get(i + 1) {
+                let lp = if Path::new(l).is_absolute() { Path::new(l).to_path_buf() } else { cwd.join(l) };
+                if let Ok(d) = std::fs::read(&lp) {
+                    if !d.contains(&b'\r') {
+                        to_crlf(&lp);
+                    }
+                }
+            }
+        }
+    }
     let mut rewritten: Vec<String> = Vec::with_capacity(args.len());
     let mut i = 0;
     while i < args.len() {
@@ -210,6 +223,24 @@ pub fn add_trailing_blank(path: &Path, salt: usize) {
         }
         if i + 1 < lines.len() {
             out.push(b'\n');
+        }
+    }
+    std::fs::write(path, out).expect("write");
+}
+
+/// put an empty line behind some sequence lines of a FASTA file (every `every`-th one, never behind a header):
+/// an empty line inside a record is an empty piece of wrapped sequence
+pub fn add_blank_lines(path: &Path, every: usize) {
+    let data = std::fs::read(path).expect("read");
+    let mut out = Vec::with_capacity(data.len() + data.len() / 20);
+    let mut n = 0usize;
+    for l in data.split_inclusive(|b| *b == b'\n') {
+        out.extend_from_slice(l);
+        if !l.is_empty() && l[0] != b'>' && l.ends_with(b"\n") && l.len() > 1 {
+            n += 1;
+            if n % every.max(1) == 0 {
+                out.push(b'\n');
+            }
         }
     }
     std::fs::write(path, out).expect("write");
